@@ -164,7 +164,8 @@ def run_chunk(chunk):
         for lid, arrangement, files, entries, explicit_cfg in itertools.islice(layouts(pat, old, new, tier, fmt), 3):
             run_project(st, pat, label, old, new, fmt, lid, "set-version-respelled", files, entries, explicit_cfg, set_version=alt)
     # another tool's look-alike sections with their own current_version keys stand before the bumpver section
-    for lid, arrangement, files, entries, explicit_cfg in itertools.islice(layouts(pat, old, new, tier, fmt), 8 if tier == "quick" else 40):
+    plain = (l for l in layouts(pat, old, new, tier, fmt) if "mixed-line-endings" not in l[1])  # (mixed endings: the known finding, reported under its own name)
+    for lid, arrangement, files, entries, explicit_cfg in itertools.islice(plain, 8 if tier == "quick" else 40):
         run_project(st, pat, label, old, new, fmt, lid, "look-alike-sections-before-the-config-section", files, entries, explicit_cfg, preamble=True)
     config_reached_indirectly(st, pat, label, old, new, fmt)
     # stale occurrences: the files show ANOTHER version than the config's current_version (a file that was not kept up to date,
